@@ -123,6 +123,9 @@ def harnesses(rep, cfg, mp, tier):
         vcs.append(("bytes 0..30 canonical, byte 31 | sign(x)<<7", all((ob[k] - cy[0][1][k]).is_zero() for k in range(31)) and len(ng) == 1 and (ob[31] - cy[0][1][31] - C(128 * ng[0][2])).is_zero()))
         return vcs
     F("GroupEncoding::to_bytes for EdwardsPoint == compress", "vp_grp_ed_to_bytes", b_ed_to_bytes)
+    # RistrettoPoint's GroupEncoding::from_bytes re-implements the decoding steps: compared with RFC 9496 Decode on every path, exactly
+    # like CompressedRistretto::decompress in C06 (same reference procedure)
+    F("GroupEncoding::from_bytes for RistrettoPoint vs RFC 9496 4.3.1", "vp_grp_ris_from_bytes", c06.mk_ris_decode("vp_grp_ris_from_bytes"))
     # group-level glue
     def G(name, fn, body): tasks.append(lambda: c04_g(rep, cfg, mp, name, fn, body))
     from checks.c04 import g_harness
@@ -139,7 +142,77 @@ def harnesses(rep, cfg, mp, tier):
         out = it.new_region("out", 4 * it.fs)
         it.call("vp_grp_ed_identity", [out]); return it.get(out), gsym.G(), []
     G("Group::identity", "vp_grp_ed_identity", b_id)
+    # torsion-freeness (inherent method, CofactorGroup::is_torsion_free, into_subgroup): the ONLY test performed is whether [l]P is the
+    # identity, and its outcome is returned unchanged (both outcomes of the test are executed)
+    def tf_harness(name, fn):
+        def run_one():
+            import time as _t
+            from llsym import fconst
+            t0 = _t.time()
+            rec = dict(harness="%s/%s" % (cfg, name), config=cfg, function=fn, goals=[], bounds="symbolic point; the scalar is the constant l (its radix-16 digits are computed by the reference recoding)")
+            status = "ok"
+            try:
+                for outcome in (1, 0):
+                    it = gsym.GSym(module(mp)); tested = []
+                    def eqh(it_, a, n, tested=tested, outcome=outcome):
+                        tested.append(it_.get(a[0]) - (it_.get(a[1]) if len(a) > 1 and isinstance(a[1], Ptr) else gsym.G())); return Poly.const(outcome)
+                    it.intercept.insert(0, (r'^<curve25519_dalek::edwards::EdwardsPoint as subtle::ConstantTimeEq>::ct_eq$', eqh))
+                    it.intercept.insert(0, (r'^<T as curve25519_dalek::traits::IsIdentity>::is_identity$', eqh))
+                    P = it.point("P")
+                    r = it.P(it.call(fn, [P]))
+                    okv = r.is_const() and (r.cval() & 1) == outcome
+                    okt = len(tested) == 1 and tested[0].eq(gsym.G.base("P").scale(fconst.L))
+                    rec["goals"].append(dict(goal="outcome %d of the identity test is returned unchanged" % outcome, verdict="unsat" if okv else "sat", solver_s=0.0, cases=1, solver_calls=0, kind="structural"))
+                    rec["goals"].append(dict(goal="exactly one test, on [l]P against the identity (outcome %d)" % outcome, verdict="unsat" if okt else "sat", solver_s=0.0, cases=1, solver_calls=0, kind="polynomial identity"))
+                    if not (okv and okt): status = "violation"; rec["why"] = "torsion test is not 'is [l]P the identity': tested %s, returned %r" % ([str(t)[:80] for t in tested], r)
+            except ir.Unsupported as e:
+                status = "inconclusive"; rec["why"] = "unsupported IR: " + str(e)[:300]
+                if "cannot use G(" in str(e):
+                    # the code inspects raw coordinates of [l]P instead of testing it against the identity: differential native replay on
+                    # the points whose torsion component is each of the eight 8-torsion points
+                    ok, det = torsion_replay(cfg, fn)
+                    rec["replay"] = det
+                    if ok: status = "violation"; rec["reproduced"] = True; rec["why"] = "torsion test inspects coordinates of [l]P and disagrees with '[l]P == O': " + str(det)[:300]
+            except PanicReached as e:
+                status = "violation"; rec["why"] = "panic reached: " + str(e)[:200]
+            rec["status"] = status; rec["wall_s"] = round(_t.time() - t0, 3)
+            rep.add(**rec); rep.functions.add(fn); rep.configs.add(cfg)
+        tasks.append(run_one)
+    tf_harness("EdwardsPoint::is_torsion_free tests [l]P == O", "vp_ed_is_torsion_free")
+    tf_harness("CofactorGroup::is_torsion_free tests [l]P == O", "vp_grp_is_torsion_free")
+    tf_harness("CofactorGroup::into_subgroup is Some <=> [l]P == O", "vp_grp_into_subgroup_is_some")
     return tasks
+
+def torsion_replay(cfg, fn):
+    """native run of the torsion test on B + T for every T in E[8] (and T itself), compared with [l]P == O computed by the specification"""
+    from vp import native
+    from checks.c04 import compress_py
+    P_ = fconst.P; Lq = fconst.L; Bpt = (fconst.BX, fconst.BY)
+    # an 8-torsion generator: l * (any point whose l-multiple has order 8)
+    T8 = None
+    y = 3
+    while T8 is None:
+        y += 1
+        u = (y * y - 1) % P_; v = (fconst.D * y * y + 1) % P_
+        x2 = u * pow(v, P_ - 2, P_) % P_
+        x = pow(x2, (P_ + 3) // 8, P_)
+        if (x * x - x2) % P_ != 0: x = x * pow(2, (P_ - 1) // 4, P_) % P_
+        if (x * x - x2) % P_ != 0: continue
+        Q = fconst.ed_mul(Lq, (x, y))
+        if fconst.ed_mul(4, Q) != (0, 1): T8 = Q
+    name = {"vp_grp_is_torsion_free": "grp_is_torsion_free", "vp_grp_into_subgroup_is_some": "grp_into_subgroup_is_some", "vp_ed_is_torsion_free": "ed_is_torsion_free"}[fn]
+    pts = []
+    for k in range(8):
+        T = fconst.ed_mul(k, T8) if k else (0, 1)
+        pts.append(("B+%dT" % k, fconst.ed_add(Bpt, T))); pts.append(("%dT" % k, T))
+    try: outs = native.run(cfg, [(name, [compress_py(p)]) for _, p in pts])
+    except Exception as e: return False, "native runner failed: " + str(e)[:200]
+    for (lab, p), got in zip(pts, outs):
+        want = 1 if fconst.ed_mul(Lq, p) == (0, 1) else 0
+        if isinstance(got, tuple): return True, dict(point=lab, native_result=str(got)[:120])
+        if got is None: return False, "native runner does not know " + name
+        if got[0] != want: return True, dict(point=lab, compressed=compress_py(p).hex(), native_result=got[0], specification=want)
+    return False, "native results agree with [l]P == O on all 16 torsion-shifted points"
 
 def run(tier, seed):
     rep = Report("C17")
